@@ -923,6 +923,13 @@ STAGES: dict[str, tuple[list[list], int]] = {
     'openconfirm-low': ([['start'], ['connectOk'], ['recv', 1, 'openLow']], 1),
     'established-fresh': ([['start'], ['connectOk'], ['recv', 1, 'open'], ['recv', 1, 'keepalive']], 1),
     'established': ([['start'], ['connectOk'], ['recv', 1, 'open'], ['recv', 1, 'keepalive'], ['tick'], ['tick']], 1),
+    # the coroutine still awaits a read on a connection `handle_connection` / `_stop` closed under it (F30)
+    'opensent-replaced': ([['start'], ['connectOk'], ['incoming']], 2),
+    'openconfirm-replaced': ([['start'], ['connectOk'], ['recv', 1, 'open'], ['incoming']], 2),
+    'opensent-stopped': ([['start'], ['connectOk'], ['stop']], 1),
+    'established-stopped': ([['start'], ['connectOk'], ['recv', 1, 'open'], ['recv', 1, 'keepalive'], ['tick'], ['queueRefresh'], ['stop']], 1),
+    'established-stopped-adopted': ([['start'], ['connectOk'], ['recv', 1, 'open'], ['recv', 1, 'keepalive'], ['tick'], ['queueRefresh'], ['announce', 1], ['stop'], ['incoming']], 2),
+    'fresh-stopped-adopted': ([['start'], ['connectOk'], ['recv', 1, 'open'], ['recv', 1, 'keepalive'], ['stop'], ['incoming']], 2),
     'second-session': ([['start'], ['connectOk'], ['recv', 1, 'open'], ['recv', 1, 'keepalive'], ['tick'], ['eof', 1], ['start'], ['connectOk'], ['recv', 2, 'open'], ['recv', 2, 'keepalive']], 2),
 }
 
@@ -1221,30 +1228,76 @@ def oracle_c10(script: list[list], res: dict, cfg: dict, error_class: Any) -> li
     return bad
 
 
-def shrink_script(script: list[list], cfg: dict, still_bad: Any) -> list[list]:
-    """Delta debugging on the event list; `still_bad(script)` re-runs the rig."""
+CREATORS = ('connectOk', 'incoming')
+SIMPLER = {'openLow': 'open', 'openAs': 'open', 'openId0': 'open', 'openHold1': 'open', 'updMissing': 'update', 'updAsPath': 'update', 'refresh': 'update', 'tooLong': 'badLength', 'kaLen20': 'badLength', 'rrBadLen': 'badLength', 'openShort': 'badLength'}
+
+
+def _retarget(orig: list[list], keep: list[int]) -> list[list]:
+    """The events `keep` of `orig`, messages still addressed to "the k-th latest connection"."""
+    made = 0
+    rel: dict[int, int] = {}
+    for i, ev in enumerate(orig):
+        if ev[0] in ('recv', 'eof', 'sockError'):
+            rel[i] = made - ev[1]
+        if ev[0] in CREATORS:
+            made += 1
+    out = []
+    made = 0
+    for i in keep:
+        ev = list(orig[i])
+        if i in rel:
+            ev[1] = max(1, made - rel[i])
+        if ev[0] in CREATORS:
+            made += 1
+        out.append(ev)
+    return out
+
+
+def shrink_script(script: list[list], cfg: dict, still_bad: Any) -> tuple[list[list], dict]:
+    """Smallest (script, configuration) on which `still_bad(script, cfg)` holds: configuration keys
+    dropped, events removed by delta debugging (connection ids re-targeted), message kinds
+    replaced by the plainest of their class."""
+    for cand_cfg in ({}, {'routes': 1}):
+        if cand_cfg != cfg and still_bad(script, cand_cfg):
+            cfg = cand_cfg
+            break
+    else:
+        for k in sorted(cfg):
+            c2 = {x: v for x, v in cfg.items() if x != k}
+            if still_bad(script, c2):
+                cfg = c2
     cur = list(script)
-    n = 2
-    while len(cur) >= 2:
-        chunk = max(1, len(cur) // n)
-        reduced = False
-        for i in range(0, len(cur), chunk):
-            cand = cur[:i] + cur[i + chunk :]
-            if cand and still_bad(cand):
-                cur = cand
-                n = max(n - 1, 2)
-                reduced = True
-                break
-        if not reduced:
-            if chunk == 1:
-                break
-            n = min(n * 2, len(cur))
-    return cur
-
-
-def renumber(script: list[list]) -> list[list]:
-    """Connection ids follow the order of creation: after events were dropped, rename them."""
-    return script
+    for _ in range(2):
+        n = 2
+        while len(cur) >= 2:
+            chunk = max(1, len(cur) // n)
+            reduced = False
+            for i in range(0, len(cur), chunk):
+                keep = [j for j in range(len(cur)) if not (i <= j < i + chunk)]
+                for cand in (_retarget(cur, keep), [cur[j] for j in keep]):
+                    if cand and still_bad(cand, cfg):
+                        cur = cand
+                        n = max(n - 1, 2)
+                        reduced = True
+                        break
+                if reduced:
+                    break
+            if not reduced:
+                if chunk == 1:
+                    break
+                n = min(n * 2, len(cur))
+        for i, ev in enumerate(cur):
+            if ev[0] == 'recv' and ev[2] in SIMPLER:
+                cand = [list(e) for e in cur]
+                cand[i][2] = SIMPLER[ev[2]]
+                if still_bad(cand, cfg):
+                    cur = cand
+            if ev[0] == 'teardown' and ev[1] != 2:
+                cand = [list(e) for e in cur]
+                cand[i][1] = 2
+                if still_bad(cand, cfg):
+                    cur = cand
+    return cur, cfg
 
 
 def run_case(script: list[list], cfg: dict | None) -> dict:
@@ -1367,6 +1420,7 @@ def run_property(ctx: Any, prop: str, fault_weight: float) -> None:
             model_out[i] = b
 
     seen: set = set()
+    seen_raw: set = set()
     oracle = oracle_c05 if prop == 'C05' else oracle_c10
     for i in sorted(results):
         script, cfg, origin, model_b = cases[i]
@@ -1401,23 +1455,27 @@ def run_property(ctx: Any, prop: str, fault_weight: float) -> None:
         for rule, what in (oracle(script, res, rfc_table) if prop == 'C05' else oracle(script, res, cfg, error_class)):
             ctx.count('oracle-fail:' + rule)
 
-            def still(cand: list[list], rule: str = rule) -> bool:
-                r = run_case(cand, cfg)
+            def judge(cand: list[list], ccfg: dict) -> list[tuple[str, str]]:
+                r = run_case(cand, ccfg)
                 if 'error' in r:
-                    return False
-                found = oracle(cand, r, rfc_table) if prop == 'C05' else oracle(cand, r, cfg, error_class)
-                return any(x[0] == rule for x in found)
+                    return []
+                return oracle(cand, r, rfc_table) if prop == 'C05' else oracle(cand, r, ccfg, error_class)
 
-            small = shrink_script(script, cfg, still) if len(seen) < 60 else script
-            canon = canon_failure(rule, small, cfg)
+            def still(cand: list[list], ccfg: dict, rule: str = rule) -> bool:
+                return any(x[0] == rule for x in judge(cand, ccfg))
+
+            raw = json.dumps([rule, script, sorted(cfg.items())])
+            if raw in seen_raw:
+                continue
+            seen_raw.add(raw)
+            small, scfg = shrink_script(script, cfg, still) if len(seen) < 200 else (script, cfg)
+            canon = canon_failure(rule, small, scfg)
             key = json.dumps(canon, sort_keys=True)
             if key in seen:
                 continue
             seen.add(key)
-            r2 = run_case(small, cfg)
-            found = oracle(small, r2, rfc_table) if prop == 'C05' else oracle(small, r2, cfg, error_class)
-            desc = next((x[1] for x in found if x[0] == rule), what)
-            ctx.failures.append(Failure('session-script', canon, {'script': small, 'cfg': cfg}, desc))
+            desc = next((x[1] for x in judge(small, scfg) if x[0] == rule), what)
+            ctx.failures.append(Failure('session-script', canon, {'script': small, 'cfg': scfg}, desc))
     if spec is not None:
         spec.close()
 
